@@ -37,7 +37,8 @@ def run(tier):
             shapes = [(rng.randint(2, 40), rng.randint(2, 30)) for _ in range(nim)]
             row_limit = rng.choice([None, rng.randint(1, 15), 7])
             target = rng.choice(['path', 'bytesio'])
-            with_sicd = rng.random() < 0.4
+            nsicd = rng.choice([0, 0, 0, 1, 1, 2, 3])      # number of parent SICD structures embedded (independent of the image count)
+            with_sicd = nsicd > 0
             plans = {}
             for i, (r, c) in enumerate(shapes):
                 ch = sargen.row_chunks(rng, r, 4)
@@ -57,12 +58,17 @@ def run(tier):
                         k += rng.randint(1, 3)
                         order.insert(min(k, len(order)), 'flush')
                         k += 1
-            case = {'shapes': shapes, 'pixel_type': pt, 'row_limit': row_limit, 'target': target, 'with_sicd': with_sicd, 'plans': plans,
+            case = {'shapes': shapes, 'pixel_type': pt, 'row_limit': row_limit, 'target': target, 'with_sicd': with_sicd, 'nsicd': nsicd, 'plans': plans,
                     'version': version, 'order': order}
-            seen.add((pt, nim, row_limit is not None, target, with_sicd, version, hist))
+            seen.add((pt, nim, row_limit is not None, target, min(nsicd, 2), nsicd > nim, version, hist))
             metas = [sargen.small_sidd(r, c, pt, version=version) for r, c in shapes]
             datas = [sargen.sidd_pixels(rng, r, c, pt) for r, c in shapes]
-            sicd = sargen.small_sicd(20, 10) if with_sicd else None
+            sicds = []
+            for k_ in range(nsicd):
+                sk = sargen.small_sicd(20 + k_, 10 + 2 * k_)
+                sk.CollectionInfo.CoreName = f'parent{k_}'
+                sicds.append(sk)
+            sicd = None if not sicds else (sicds[0] if nsicd == 1 and rng.random() < 0.5 else sicds)
             try:
                 buf, det = sargen.write_sidd(metas, datas, target, tmpdir, row_limit=row_limit, sicd_meta=sicd, chunk_plans=plans, order=order)
             except Exception as e:
@@ -111,14 +117,16 @@ def run(tier):
                 if with_sicd:
                     got_sicd = rdr.sicd_meta
                     got_sicd = got_sicd if isinstance(got_sicd, (tuple, list)) else ([got_sicd] if got_sicd is not None else [])
-                    if len(got_sicd) != 1:
-                        fails.append({'kind': 'metadata', 'msg': f'embedded SICD structures: wrote 1, read {len(got_sicd)}', 'case': case})
+                    if len(got_sicd) != nsicd:
+                        fails.append({'kind': 'metadata', 'msg': f'embedded SICD structures: wrote {nsicd} ({[x.CollectionInfo.CoreName for x in sicds]}), '
+                                                                 f'read {len(got_sicd)} ({[x.CollectionInfo.CoreName for x in got_sicd]})', 'case': case})
                     else:
-                        a, b = sicd.copy(), got_sicd[0].copy()
-                        a.derive(); b.derive()
-                        m = meta_diff(strip(a.to_dict()), strip(b.to_dict()))
-                        if m:
-                            fails.append({'kind': 'metadata', 'msg': 'embedded SICD structure differs after write/read: ' + m, 'case': case})
+                        for k_, (a0, b0) in enumerate(zip(sicds, got_sicd)):
+                            a, b = a0.copy(), b0.copy()
+                            a.derive(); b.derive()
+                            m = meta_diff(strip(a.to_dict()), strip(b.to_dict()))
+                            if m:
+                                fails.append({'kind': 'metadata', 'msg': f'embedded SICD structure {k_} differs after write/read: ' + m, 'case': case})
             except Exception as e:
                 fails.append({'kind': 'read', 'msg': f'reading back raised {type(e).__name__}: {e}', 'case': case})
             finally:
